@@ -95,21 +95,39 @@ pub fn silence_panics() {
     std::panic::set_hook(Box::new(|_| {}));
 }
 
+pub const NAN_S: i64 = 1073741823;   // sentinels for values that are not on the grid (TLC cannot mix strings and integers)
+pub const PINF_S: i64 = 1073741822;
+pub const OFFGRID_S: i64 = 1073741821;
+
 /// Convert a grid f32 (multiple of 2^-s, or -inf) to its integer in units of 2^-s.
 pub fn grid(x: f32, s: u32) -> Value {
     if x == f32::NEG_INFINITY {
         json!(NINF)
     } else if x.is_nan() {
-        json!("nan")
+        json!(NAN_S)
     } else if x == f32::INFINITY {
-        json!("inf")
+        json!(PINF_S)
     } else {
         let y = (x as f64) * (1u64 << s) as f64;
         if y.fract() == 0.0 && y.abs() < 1e9 {
             json!(y as i64)
         } else {
-            json!(format!("offgrid:{}", x))
+            json!(OFFGRID_S)
         }
+    }
+}
+
+/// Quantise any f32/f64: round(x * q); sentinels for -inf / +inf / NaN / too large.
+pub fn quant(x: f64, q: f64) -> i64 {
+    if x == f64::NEG_INFINITY {
+        NINF
+    } else if x.is_nan() {
+        NAN_S
+    } else if x == f64::INFINITY {
+        PINF_S
+    } else {
+        let y = (x * q).round();
+        if y.abs() < 1.0e9 { y as i64 } else { OFFGRID_S }
     }
 }
 
